@@ -193,7 +193,7 @@ struct Gen {
 
     GNode cmp() {
         GNode n; n.k = GNode::CMP; ++ncmp;
-        static const Strs pats = { "P*", "*", "'P*'", "I*", "X*", "*1", "\\*", "?P*", "P?", "*P*", "\\*P*", "OP_*", "'\\*'", "*L1", "*L*", "'*L2'", "*M", "O*1", "\\P1", "P[12]*", "[!O]*", "*[1-2]", "[OP]P*", "P[!1]*", "[A-P]*", "*[]3]", "[^P]*_*", "*[3-1]", "P[1*", "'[O-P]?*'" };
+        static const Strs pats = { "P*", "*", "'P*'", "I*", "X*", "*1", "\\*", "?P*", "P?", "*P*", "\\*P*", "OP_*", "'\\*'", "*L1", "*L*", "'*L2'", "*M", "O*1", "\\P1", "P[12]*", "[!O]*", "*[1-2]", "[OP]P*", "P[!1]*", "[A-P]*", "*[]3]", "[^P]*_*", "*[3-1]", "P[1*", "'[O-P]?*'", "P\\1*", "*\\_1", "[\\O]P*" };
         switch (rng.below(14)) {
         case 0: n.func = rng.pick(Strs{ "FOPR", "FWCT", "FUX" }); break;
         case 1: n.func = rng.coin() ? "GOPR" : "GUX"; n.args = { rng.pick(Strs{ "G1", "G2", "'G1'", "G1", "G2", "'G2'", "G1", "G2", "G*", "G3" }) }; break;
